@@ -2,7 +2,7 @@
 # run_all.sh [tier] [props...] : runs the registered checks (writes evidence), prints one line each
 T=${1:-quick}; shift
 PROPS=${@:-C01 C02 C03 C04 C05 C06 C07 C08 C09 C10 C11 C12 C13 C14 C15 C16 C17 C18 C19 C20}
-cd /verif
+cd "$(dirname "$0")/.."
 for p in $PROPS; do
   [ -f sx/props/$(echo $p | tr A-Z a-z).py ] || continue
   s=$(date +%s)
